@@ -140,9 +140,10 @@ Lemma grease_seed_shape gb sd : grease_seed gb = Ok sd ->
   exists c g e1 e2 v, sd = [c; g; e1; e2; v] /\ grease_word e1 <> grease_word e2.
 Proof.
   unfold grease_seed. destruct (Nat.eqb_spec (length gb) (2 * ssl_grease_last_index)) as [Hl|]; [|discriminate].
-  intros H; inversion H; clear H.
   pose proof (seed_words_length _ _ Hl) as Hn.
-  destruct (seed_words ssl_grease_last_index gb) as [|c [|g [|e1 [|e2 [|v [|x r]]]]]]; cbn in Hn; try discriminate.
+  set (ws := seed_words ssl_grease_last_index gb) in *. clearbody ws.
+  intros H. injection H as H. subst sd.
+  destruct ws as [|c [|g [|e1 [|e2 [|v [|x r]]]]]]; cbn in Hn; try discriminate.
   unfold dedup_ext. destruct (N.eqb_spec (grease_word e1) (grease_word e2)) as [E|NE].
   - exists c, g, e1, (N.lxor e2 4112), v. split; [reflexivity|]. rewrite E. intros C. symmetry in C. revert C. apply xor_flips.
   - exists c, g, e1, e2, v. split; [reflexivity | exact NE].
@@ -153,7 +154,7 @@ Lemma ext_values_differ gb sd : grease_seed gb = Ok sd ->
                 boring_grease sd ssl_grease_extension2 = Ok v2 /\ v1 <> v2.
 Proof.
   intros H. destruct (grease_seed_shape _ _ H) as (c & g & e1 & e2 & v & -> & NE).
-  exists (grease_word e1), (grease_word e2). repeat split; [reflexivity | reflexivity | exact NE].
+  exists (grease_word e1), (grease_word e2). split; [reflexivity | split; [reflexivity | exact NE]].
 Qed.
 
 Lemma slots_defined gb sd idx : grease_seed gb = Ok sd -> (idx < ssl_grease_last_index)%nat ->
@@ -292,10 +293,10 @@ Lemma apply_preset_inv gb suites exts suites' exts' :
              apply_exts sd 0 exts = Ok exts'.
 Proof.
   unfold apply_preset_grease. intros H.
-  destruct (grease_seed gb) as [sd| |]; cbn in H; try discriminate.
-  destruct (map_res (regrease sd ssl_grease_cipher) suites) as [s'| |]; cbn in H; try discriminate.
-  destruct (apply_exts sd 0 exts) as [e'| |]; cbn in H; try discriminate.
-  inversion H; subst. exists sd. auto.
+  destruct (grease_seed gb) as [sd| |] eqn:Hs; cbn [bind] in H; try discriminate.
+  destruct (map_res (regrease sd ssl_grease_cipher) suites) as [s'| |] eqn:Hc; cbn [bind] in H; try discriminate.
+  destruct (apply_exts sd 0 exts) as [e'| |] eqn:He; cbn [bind] in H; try discriminate.
+  injection H as H1 H2. subst s' e'. exists sd. split; [reflexivity | split; [exact Hc | exact He]].
 Qed.
 
 Lemma preset_ext_distinct gb suites exts suites' exts' :
@@ -314,6 +315,15 @@ Qed.
 Definition groups_of (e : ext) : list N :=
   match e with XCurves l => l | XKeyShare l => l | _ => [] end.
 
+Lemma ext_rel_groups sd es es' : Forall2 (ext_rel sd) es es' ->
+  Forall (fun e => Forall (fun b => is_grease b = true -> boring_grease sd ssl_grease_group = Ok b) (groups_of e)) es'.
+Proof.
+  intros R. induction R as [|a b l l' Hab _ IH]; [constructor|]. constructor; [|exact IH].
+  destruct a, b; cbn in Hab; try contradiction; cbn [groups_of]; try constructor.
+  - eapply regreased_out; [exact Hab | apply boring_is_grease].
+  - eapply regreased_out; [exact Hab | apply boring_is_grease].
+Qed.
+
 Lemma preset_group_consistent gb suites exts suites' exts' :
   apply_preset_grease gb suites exts = Ok (suites', exts') ->
   exists g, slot gb ssl_grease_group = Ok g /\ is_grease g = true /\
@@ -324,11 +334,7 @@ Proof.
   exists g. split; [unfold slot; rewrite Hs; exact Hg|]. split; [eapply boring_is_grease; exact Hg|].
   pose proof (apply_exts_rel _ _ _ _ He) as R.
   intros e c Hin Hc Gc.
-  assert (Hall : Forall (fun e => Forall (fun b => is_grease b = true -> boring_grease sd ssl_grease_group = Ok b) (groups_of e)) exts').
-  { clear Hin. induction R as [|a b l l' Hab _ IH]; constructor; [|exact IH].
-    destruct a, b; cbn in Hab; try contradiction; cbn [groups_of]; try constructor.
-    - eapply regreased_out; [exact Hab | apply boring_is_grease].
-    - eapply regreased_out; [exact Hab | apply boring_is_grease]. }
+  pose proof (ext_rel_groups _ _ _ R) as Hall.
   rewrite Forall_forall in Hall. specialize (Hall e Hin). rewrite Forall_forall in Hall.
   specialize (Hall c Hc Gc). congruence.
 Qed.
@@ -348,16 +354,20 @@ Definition ext_reserved (a b : ext) : Prop :=
   | _, _ => False
   end.
 
+Lemma ext_rel_reserved sd es es' : Forall2 (ext_rel sd) es es' -> Forall2 ext_reserved es es'.
+Proof.
+  intros R. induction R as [|a b l l' Hab _ IH]; [constructor|]. constructor; [|exact IH].
+  destruct a, b; cbn in Hab; try contradiction; cbn; try exact Hab;
+    (eapply regreased_reserved; [exact Hab | apply boring_is_grease]).
+Qed.
+
 Lemma preset_reserved gb suites exts suites' exts' :
   apply_preset_grease gb suites exts = Ok (suites', exts') ->
   Forall2 reserved_rel suites suites' /\ Forall2 ext_reserved exts exts'.
 Proof.
   intros H. destruct (apply_preset_inv _ _ _ _ _ H) as (sd & Hs & Hc & He). split.
   - eapply regreased_reserved; [apply map_regrease; exact Hc | apply boring_is_grease].
-  - pose proof (apply_exts_rel _ _ _ _ He) as R.
-    induction R as [|a b l l' Hab _ IH]; constructor; [|exact IH].
-    destruct a, b; cbn in Hab; try contradiction; cbn; try exact Hab;
-      (eapply regreased_reserved; [exact Hab | apply boring_is_grease]).
+  - apply (ext_rel_reserved sd). eapply apply_exts_rel. exact He.
 Qed.
 
 (* all GREASE cipher suites are the cipher slot value, all GREASE versions the version slot value *)
@@ -459,7 +469,7 @@ Lemma uniform w : w < 16 ->
   length (filter (fun b => grease_word b =? grease_val w) (nrange 256)) = 16%nat.
 Proof.
   intros Hw.
-  assert (H : forallb (fun w => (length (filter (fun b => grease_word b =? grease_val w) (nrange 256)) =? 16)%nat) (nrange 16) = true)
+  assert (H : forallb (fun w => Nat.eqb (length (filter (fun b => grease_word b =? grease_val w) (nrange 256))) 16) (nrange 16) = true)
     by (vm_compute; reflexivity).
   pose proof (sweep_lift _ 16 H w Hw) as H1. cbv beta in H1. apply Nat.eqb_eq in H1. exact H1.
 Qed.
@@ -518,16 +528,12 @@ Qed.
 Lemma grease_version_u32 d : grease_version d < 4294967296.
 Proof.
   unfold grease_version, VERSION_GREASE. destruct d as [x|]; [|lia].
-  set (y := u32 _). assert (Hy : y < 2 ^ 32) by (unfold y, u32; apply N.mod_lt; discriminate).
-  assert (Hl : N.land y 4042322160 < 2 ^ 32).
-  { destruct (N.eq_dec (N.land y 4042322160) 0) as [->|NZ]; [reflexivity|].
-    apply N.log2_lt_pow2; [lia|]. eapply N.le_lt_trans; [apply N.log2_land|].
-    apply N.min_lt_iff. right. reflexivity. }
-  destruct (N.eq_dec (N.lor (N.land y 4042322160) 168430090) 0) as [->|NZ]; [reflexivity|].
-  apply N.log2_lt_pow2; [lia|]. rewrite N.log2_lor.
-  apply N.max_lub_lt; [|reflexivity].
-  destruct (N.eq_dec (N.land y 4042322160) 0) as [->|NZ']; [reflexivity|].
-  apply N.log2_lt_pow2; [lia | exact Hl].
+  set (y := u32 _).
+  assert (E : N.land (N.lor (N.land y 4042322160) 168430090) (N.ones 32) = N.lor (N.land y 4042322160) 168430090).
+  { rewrite N.land_lor_distr_l, <- N.land_assoc.
+    change (N.land 4042322160 (N.ones 32)) with 4042322160.
+    change (N.land 168430090 (N.ones 32)) with 168430090. reflexivity. }
+  rewrite <- E, N.land_ones. change 4294967296 with (2 ^ 32). apply N.mod_lt. discriminate.
 Qed.
 
 Lemma unfixed_witness : is_grease_version (grease_version_unfixed (Some 1)) = false.
